@@ -30,7 +30,9 @@ Bigs == { [id |-> "big:int64:max", cls |-> "big", s |-> "9223372036854775807", p
           [id |-> "big:uint64:max", cls |-> "big", s |-> "18446744073709551615", pos |-> TRUE],
           [id |-> "big:int32:max", cls |-> "big", s |-> "2147483647", pos |-> TRUE],
           [id |-> "big:uint32:max", cls |-> "big", s |-> "4294967295", pos |-> TRUE] }
-StrTexts == {"", "abc", "1", "1.5", "-2", "007", "0.5", "0", "a%20b", "-0.25", "12abc", ".5", "5.", "+3", "-", ".", "1.5.2"}
+StrTexts == {"", "abc", "1", "1.5", "-2", "007", "0.5", "0", "a%20b", "-0.25", "12abc", ".5", "5.", "+3", "-", ".", "1.5.2",
+             (* decimal means decimal: a leading zero is not octal, letters and digit separators make the string non-numeric *)
+             "010", "0100", "012", "08", "0b11", "0o17", "1_000", "-010", "0777.5"}
 Unescape(s) == IF s = "a%20b" THEN "a b" ELSE s
 Strs == {[id |-> "str:" \o t, cls |-> "str", s |-> Unescape(t)] : t \in StrTexts}
 Bools == {[id |-> "bool:t", cls |-> "bool", b |-> TRUE], [id |-> "bool:f", cls |-> "bool", b |-> FALSE]}
